@@ -140,7 +140,8 @@ C07V(p, q) ==
          IF bad = {} THEN ""
          ELSE LET d == R.diff[CHOOSE i \in bad : \A j \in bad : i <= j]
                   off == d[1] - p.mo
-                  where == IF off < 0 THEN "before-path"
+                  where == IF p.pt = "ohp" THEN (IF off < 0 THEN "before-path" ELSE IF off < 32 THEN "one-hop-path" ELSE "after-path")
+                           ELSE IF off < 0 THEN "before-path"
                            ELSE IF off < 4 THEN "path-meta"
                            ELSE IF off < 4 + 8 * NumInf(p) THEN "info-field"
                            ELSE IF off < 4 + 8 * NumInf(p) + 12 * NumHops(p) THEN "hop-field"
